@@ -109,6 +109,7 @@ func (fg *FnGen) instr(ins ssa.Instruction) {
 	case *ssa.MakeClosure:
 		fg.closures[x] = x
 		c := fg.fresh("closure", SInt)
+		fg.assume(Not(Eq(c, IntLit(0)))) // a function literal is never nil
 		fg.bind(x, &Val{T: x.Type(), L: []Term{c}})
 		if !closureOnlyCalledHere(x) {
 			for _, b := range x.Bindings {
@@ -354,10 +355,32 @@ func exprName(v ssa.Value) string {
 		}
 	case *ssa.Extract:
 		return exprName(x.Tuple)
+	case *ssa.Alloc:
+		if x.Comment != "" {
+			return x.Comment
+		}
+	case *ssa.FreeVar:
+		return x.Name()
 	case *ssa.Call:
 		return "result"
 	}
 	return "expr"
+}
+
+// dynCalleeName: the source-level name of a called function value (local variable, field, parameter)
+func (fg *FnGen) dynCalleeName(v ssa.Value) string {
+	n := exprName(v)
+	if n != "expr" && n != "result" {
+		return n
+	}
+	for name, bs := range fg.debugNames {
+		for _, b := range bs {
+			if b.v == v && !b.addr {
+				return name
+			}
+		}
+	}
+	return n
 }
 
 func (fg *FnGen) unop(x *ssa.UnOp) {
@@ -942,6 +965,63 @@ func (fg *FnGen) isPrivateAlloc(a *ssa.Alloc) bool {
 	// a local whose address never leaves the function (loads, stores, field/index addressing, closures that are only
 	// called here): callees cannot reach it
 	res := addrOK(a, 0)
+	if !res && fg.isSemiPrivateAlloc(a) && closuresOnlyRead(a, 0) {
+		// the variable is handed to closures that escape, but no closure (nor a closure nested in one) ever assigns it:
+		// after this function's own stores nobody can change it
+		res = true
+	}
 	fg.privateOf[a] = res
 	return res
+}
+
+// closuresOnlyRead: every closure binding the variable cell (transitively) only loads from it.
+func closuresOnlyRead(cell ssa.Value, depth int) bool {
+	if depth > 4 || cell.Referrers() == nil {
+		return false
+	}
+	var readOnly func(v ssa.Value, d int) bool
+	readOnly = func(v ssa.Value, d int) bool {
+		if d > 4 || v.Referrers() == nil {
+			return false
+		}
+		for _, r := range *v.Referrers() {
+			switch x := r.(type) {
+			case *ssa.UnOp, *ssa.DebugRef:
+			case *ssa.FieldAddr:
+				if !readOnly(x, d+1) {
+					return false
+				}
+			case *ssa.IndexAddr:
+				if !readOnly(x, d+1) {
+					return false
+				}
+			case *ssa.MakeClosure:
+				if !closuresOnlyRead(v, depth+1) {
+					return false
+				}
+			default:
+				return false // Store (either side), call argument, ...
+			}
+		}
+		return true
+	}
+	for _, r := range *cell.Referrers() {
+		mc, ok := r.(*ssa.MakeClosure)
+		if !ok {
+			continue
+		}
+		fn, ok := mc.Fn.(*ssa.Function)
+		if !ok {
+			return false
+		}
+		for i, b := range mc.Bindings {
+			if b != cell {
+				continue
+			}
+			if i >= len(fn.FreeVars) || !readOnly(fn.FreeVars[i], 0) {
+				return false
+			}
+		}
+	}
+	return true
 }
